@@ -17,7 +17,7 @@ CLAIMED = {
             "Static decision of DESIGN section 3 C17: in every multi-thread execute() only thread-local accumulators are written, shared arrays only in finish() (serialised by the executor, C33); "
             "each accumulator merged is zeroed in initialize() of the same mode; the non-thread-safe task is always paired with a one-thread executor; dispatch counts and index mapping. "
             "Holds for every schedule/thread count; floating-point summation order and user calcForce bodies are not decided."),
-    "C16": ("STAGE coherence of allocation sites vs cache fillers (inlining depth 3), POSONLY, explicit-invalidation MUSTCALL, validity-FLAG path rules over Simbody/src",
+    "C16": ("STAGE coherence of allocation sites vs cache fillers (inlining depth 3), POSONLY, explicit-invalidation MUSTCALL, validity-FLAG / MANUALFLAG path rules, REFILL (containers inside cache entries emptied before being appended to) over Simbody/src",
             "Static decision of the stale-cache clauses of DESIGN section 3 C16: every cache filler reads only variables that invalidate its depends-on stage (or are explicitly invalidated / never written); "
             "position-cached forces read nothing later than Position; Gravity's explicit invalidation pairing; cachedForcesAreValid and FunctionBased manual flags are reset/set on all paths. "
             "Holds for every realization history since every computed result lives in such a cache; numerical equality of two histories and matter-subsystem reads through SBStateDigest are not decided."),
@@ -29,11 +29,11 @@ CLAIMED = {
             "Static decision of DESIGN section 3 C21: every state an integrator can hand back was produced by a path that completes the prescribe/realize/project pipeline after the last state write, "
             "with the projection accuracy taken from getConstraintToleranceInUse() and failures rejecting the step. Holds for every model, accuracy and step sequence that drives these paths; "
             "that projection converges / achieves the tolerance is numerical (C09) and not decided. One genuine violation on the pinned tree is recorded as a known finding."),
-    "C19": ("TYPESTATE analysis of the step-communication status machine (last-status-written per return, dominance, refusal branch always throws) and REACHDEF of the step limit, on both stepTo implementations",
+    "C19": ("TYPESTATE analysis of the step-communication status machine (last-status-written per return, dominance, refusal branch always throws, final time examined before every further step), REACHDEF of the step limit, WINDOW (event window reported only after the report time was compared with both ends), on both stepTo implementations",
             "Static decision of the status-machine clauses of C19 (DESIGN section 3): EndOfSimulation <=> FinalTimeHasBeenReturned with the final-time guard, refusal of further stepping, "
             "each returned status paired with its tabled status write in both sibling implementations, and the internal step limit bounded by min(scheduled, final[, report]) by data flow. "
             "Holds for every request sequence because it holds on every path; 'exactly at that time', monotonic time and event-window exclusion are value comparisons and are not decided."),
-    "C22": ("SWITCH exhaustiveness + per-case call/argument table on TimeStepperRep::stepTo, PAIRIDX family agreement of handler/id parallel arrays per natural loop, REACHDEF on findEventCandidates",
+    "C22": ("SWITCH exhaustiveness + per-case call/argument table on TimeStepperRep::stepTo, PAIRIDX family agreement of handler/id parallel arrays per natural loop, REACHDEF on findEventCandidates, CLONE/TIES/DEADCOND on the scheduling routines, WINDOW (shared with C19)",
             "Static decision of the dispatch clauses of C22 (DESIGN section 3): every step status has a case; each handler-invoking case passes the tabled cause and id list on the advanced state and is "
             "followed on every path by reinitialize(lowestModified, shouldTerminate) taken from that call's results; handler/reporter arrays are only paired with the id/index arrays of their own family and "
             "under the right cause; a candidate is listed only under a masked sign change of the same event. Window width, bracketing, ordering of crossings and exact handler times are numerical/time logic and not decided."),
@@ -41,20 +41,20 @@ CLAIMED = {
             "Static decision of C46's own mechanism, 'absence of shared mutable static state across System/Integrator instances' (DESIGN section 3): every static-storage variable in the libraries and repository headers is "
             "immutable by type, never written by any analysed function, a thread-local accumulator zeroed by its protocol, or in the reviewed table; a new or newly written static, a registry class gaining state, "
             "or a broken side condition is reported. Quick tier: the anchored directories; thorough: all 262 library units and every repository header. Bit-identity of actual runs is not decided."),
-    "C32": ("MUSTCHECK (end-of-input test on every accepting path after a stream extraction, through helper summaries), TABLE (non-finite tokens written vs read), AGREE (read/write overload sets and element order)",
+    "C32": ("MUSTCHECK (end-of-input test on every accepting path after a stream extraction, through helper summaries), TABLE (non-finite tokens written vs read), AGREE (read/write overload sets and element order), XMLESC (XML entity table: writer / reader / who-may-keep-quotes agreement)",
             "Static decision of the structural clauses of C32 (DESIGN section 3): every text->value conversion reports success only after checking that the whole string was consumed; the non-finite tokens written are among "
             "those the readers accept; every writable type is readable (tabled exceptions) with the same sub-object order. Digit-exact float round trips, XML escaping and TinyXML parsing are not decided."),
-    "C31": ("EFFECT-compare: mod-set of the value producers vs reset-set of setSeed per dynamic class, with a dead-under-guard table whose guards are checked",
+    "C31": ("EFFECT-compare: mod-set of the value producers vs reset-set of setSeed per dynamic class, with a dead-under-guard table whose guards are checked; DERIVED (a cached function of other fields is recomputed after each write of its sources)",
             "Static decision of 'deterministic functions of their seed' (DESIGN section 3, C31): every generator field that producing values modifies is re-initialised by setSeed of the same class "
             "(which must call its base) or is unreadable until rewritten because setSeed resets its guard. Ranges, integer-mode bounds and statistics are not decided."),
-    "C26": ("HANDOUT fixed point (mutable access only after detach), EFFECT (detach/share/clone) and NOFLOW (copy operations never read the source payload) on the class-template patterns of the pointer wrappers",
+    "C26": ("HANDOUT fixed point (mutable access only after detach), EFFECT (detach/share/clone) and NOFLOW (copy operations never read the source payload) on the class-template patterns of the pointer wrappers; RELOCATE must-pass rule on Array_ (buffer released only after its elements were destroyed)",
             "Static decision of the pointer-wrapper clauses of C26 (DESIGN section 3): every CloneOnWritePtr member that exposes mutable access or releases ownership detaches first; copies share/increment, detach clones exactly when shared; "
             "ClonePtr copies clone; ReferencePtr/ResetOnCopy/ReinitOnCopy copy operations cannot carry the source's value. All of Array_/ArrayView_ (element order, exactly-once construction/destruction, growth) is value/heap semantics and NOT decided."),
     "C23": ("PAIRCALL path rule (update slot written => marked realized with the same index on every path, in the function or in every caller), guard-index agreement, realize-hook MUSTCALL, getter/writer slot agreement",
             "Static decision of the bookkeeping clause on which Extreme, Delay, Differentiate (and the other auto-update users: ExponentialSpringForce, CablePath, CableSpan, ContactTracker) depend (DESIGN section 3, C23): "
             "a value written into an auto-update variable's update slot is marked realized on all paths with the same index, the 'already realized' test uses that index, the Acceleration-stage hook reaches the update and the getter reads a slot that was written. "
             "The values of the measures (formulas, integrals, extremes, delays) are numerical and NOT decided."),
-    "C24": ("CLONE (float~double and complex<float>~complex<double> wrapper specialisations issue identical LAPACK call traces modulo prefix/type) and REACHDEF (lwork and workspace derived from the -1 query to the same routine)",
+    "C24": ("CLONE (float~double and complex<float>~complex<double> wrapper specialisations issue identical LAPACK call traces modulo prefix/type/local names), REACHDEF (lwork and workspace derived from the -1 query to the same routine), OPTCHAR (option characters valid for the real/complex flavour reached, decided per caller instantiation), DEFTOL (sibling default-tolerance agreement, no fixed-precision constant in element-type templates)",
             "Static decision of the clause the property names as the risk, 'LAPACK argument conversion and workspace sizing is separate code per type' (DESIGN section 3, C24): per wrapper family the specialisations agree argument-for-argument, "
             "and every real call's lwork/workspace come from the preceding workspace query. Everything in Factor*.cpp / Eigen.cpp (rank logic, residuals, orderings) is numerical and NOT decided."),
     "C07": ("COMPLETE (virtual-set completeness per declared (mp,mv,ma)), AGREE (bodies selecting the kinematic input arrays == bodies selecting the force output arrays), LEVEL (count/segment/callee of one level per matrix builder), FRAME adjacency in the constraint equations",
@@ -74,7 +74,7 @@ CLAIMED = {
             "realizeInstance maps lock level / Motion to (qMethod,uMethod,udotMethod) as documented and partitions every mobilizer's q, u, udot indices into the presX / zeroX / freeX list of the same level with the right pool offset; "
             "realizeTime/Position/Dynamics fill the pool of their level from the lock values or the Motion routine of that level; prescribeQ/U copy every pool entry to the state entry of the same list and zero the zero lists; Custom motions forward each routine to its namesake. "
             "Agreement is decided level by level on every path. The values computed by Motion objects, the known/unknown partition inside the O(n) forward dynamics and the motion multipliers are numerical and NOT decided."),
-    "C13": ("PAIR+- structural rule on the action/reaction applications of every two-body element (targets, signs, force expression, own station/arm, body numbering) and FRAME monogram adjacency in the force routines",
+    "C13": ("PAIR+- structural rule on the action/reaction applications of every two-body element (targets, signs, force expression, own station/arm, body numbering, one common point of application for the contact elements) and FRAME monogram adjacency in the force routines",
             "Static decision of the structural clauses of C13 (DESIGN section 3): for the seven elements that apply action and reaction in one function, the two applications form a +/- pair on two different bodies with the same force and each body's own arm; "
             "frame adjacency at every parseable rotation/transform product. Magnitudes, and the balance of elements whose two spatial forces are computed separately (LinearBushing, CompliantContact, cables), are NOT decided. "
             "FRAME reads the programmer's monogram names (a false-but-conforming rename would fire; a non-conforming one only lowers coverage)."),
